@@ -68,7 +68,7 @@ namespace nmtools::view
             if constexpr (is_none_v<step_t>)
                 return static_cast<element_type>(start) + index;
             else
-                return static_cast<element_type>(start) + (index * step);
+                return static_cast<element_type>(start) + (static_cast<element_type>(index) * step);
         } // operator()
     }; // arange_t
     
